@@ -70,12 +70,16 @@ def src_hash(extra=()):
     return h.hexdigest()[:20]
 
 
-def prune_cache(keep=4):
+def prune_cache(keep=4, min_age_s=6 * 3600):
+    """drop old build directories, never one that was built or used in the last hours: a long check that runs beside
+    other checks (several working trees, several tiers) must not lose its binaries"""
     try:
+        now = time.time()
         ds = [os.path.join(CACHE, d) for d in os.listdir(CACHE) if d.startswith('impl-')]
         ds.sort(key=os.path.getmtime, reverse=True)
         for d in ds[keep:]:
-            shutil.rmtree(d, ignore_errors=True)
+            if now - os.path.getmtime(d) > min_age_s:
+                shutil.rmtree(d, ignore_errors=True)
     except OSError:
         pass
 
